@@ -117,6 +117,9 @@ pub struct MonState {
     /// conditions that currently hold (so that a state invariant fires once, at the step that
     /// breaks it, and its site can name that step)
     bad_now: BTreeSet<String>,
+    /// (task, dependency) pairs where the dependency had already ended unsuccessfully when the
+    /// dependent was submitted (later submit into an open job)
+    dep_bad_at_submit: BTreeSet<(TaskId, TaskId)>,
 }
 
 pub struct Monitor {
@@ -309,10 +312,11 @@ impl Monitor {
                     if let Some(ds) = self.s.deps.get(task).cloned() {
                         for d in ds {
                             if self.status(d) != TStatus::Finished {
+                                let when = if self.s.dep_bad_at_submit.contains(&(*task, d)) { "-already-at-submit" } else { "" };
                                 self.v(
                                     Prop::C03,
                                     "launched-before-dependency-finished",
-                                    format!("dep-status={:?}", self.status(d)),
+                                    format!("dep-status={:?}{when}", self.status(d)),
                                     format!("task {task} launched on worker {worker} while dependency {d} is {:?}", self.status(d)),
                                 );
                             }
@@ -563,16 +567,27 @@ impl Monitor {
             self.check_kill(sys, worker, reason, &pre_status, &pre_tasks, &step_failed, pre, post);
         }
         // crash counter in the core equals the reference
+        let mut crash_bad: BTreeSet<String> = BTreeSet::new();
         if self.on(Prop::C07) {
             for t in &post.core.tasks {
                 let r = self.s.tasks.get(&t.id).map(|m| m.crash_ref).unwrap_or(0);
                 if t.crash_counter != r {
-                    self.v(
-                        Prop::C07,
-                        "crash-counter-differs",
-                        "core.crash_counter",
-                        format!("task {} crash counter in core {} != reference {}", t.id, t.crash_counter, r),
+                    let was = Self::core_state_label(pre, t.id);
+                    let started = if pre_tasks.get(&t.id).map(|m| m.n_started).unwrap_or(0) > 0 {
+                        "reported-started"
+                    } else {
+                        "never-reported-started"
+                    };
+                    let key = format!("crash:{}", t.id);
+                    let d = format!(
+                        "task {} crash counter in core {} != reference {} (task was {was}, {started})",
+                        t.id, t.crash_counter, r
                     );
+                    if !self.s.bad_now.contains(&key) {
+                        let site = format!("{was}-{started}-after-{}", self.step_label);
+                        self.v(Prop::C07, "crash-counter-differs", site, d);
+                    }
+                    crash_bad.insert(key);
                 }
             }
         }
@@ -593,6 +608,7 @@ impl Monitor {
         }
 
         self.check_state(sys, ev, post);
+        self.s.bad_now.extend(crash_bad);
     }
 
     fn on_event(
@@ -627,10 +643,11 @@ impl Monitor {
                 if let Some(ds) = self.s.deps.get(task_id).cloned() {
                     for d in ds {
                         if self.status(d) != TStatus::Finished {
+                            let when = if self.s.dep_bad_at_submit.contains(&(*task_id, d)) { "-already-at-submit" } else { "" };
                             self.v(
                                 Prop::C03,
                                 "started-before-dependency-finished",
-                                format!("dep-status={:?}", self.status(d)),
+                                format!("dep-status={:?}{when}", self.status(d)),
                                 format!("TaskStarted({task_id}) while dependency {d} is {:?}", self.status(d)),
                             );
                         }
@@ -828,6 +845,12 @@ impl Monitor {
                             .find(|g| g.id == t.job_task_id().as_num())
                             .map(|g| g.deps.iter().map(|d| tid(*job, *d)).collect())
                             .unwrap_or_default();
+                        let deps: Vec<TaskId> = deps;
+                        for d in &deps {
+                            if matches!(self.status(*d), TStatus::Failed | TStatus::Canceled | TStatus::Aborted) {
+                                self.s.dep_bad_at_submit.insert((t, *d));
+                            }
+                        }
                         self.s.deps.insert(t, deps);
                     }
                     self.s.known_tasks_per_job.entry(*job).or_default().extend(rq);
@@ -1320,7 +1343,21 @@ impl Monitor {
                         if *u > full {
                             let key = format!("overbooked:{}:{rid}", w.id);
                             let d = format!("worker {} resource {rid}: placed tasks need {u}, worker provides {full}", w.id);
-                            self.v_edge(&mut seen, key, Prop::C05, "overbooked", d);
+                            // was the worker's free counter already wrong before this step?
+                            let drifted = self
+                                .s
+                                .bad_now
+                                .iter()
+                                .any(|k| k.starts_with(&format!("free:{}:{rid}:", w.id)));
+                            seen.insert(key.clone());
+                            if !self.s.bad_now.contains(&key) {
+                                let site = format!(
+                                    "after-{}{}",
+                                    self.step_label,
+                                    if drifted { "-with-drifted-free-counter" } else { "" }
+                                );
+                                self.v(Prop::C05, "overbooked", site, d);
+                            }
                         }
                         if full.checked_sub(*u) != Some(fr) && fr != u64::MAX {
                             let d = format!(
@@ -1334,7 +1371,9 @@ impl Monitor {
                             if !was {
                                 let site = format!("{kind}-after-{}", self.step_label);
                                 self.v(Prop::C05, "free-resources-differ", site.clone(), d.clone());
-                                self.v(Prop::C08, "resources-not-released", site, d);
+                                if kind == "leak" {
+                                    self.v(Prop::C08, "resources-not-released", site, d);
+                                }
                             }
                         }
                     }
